@@ -281,6 +281,7 @@ def classify(f, ctx):
     world = D.build_world(case["world"])
     exp = expected(case, world)
     flattened = f["which"] == "flattened"
+    # (C15's queries have two variables: below the >= 3 variables K05 needs, so nothing is ever attributed here)
     r = KF.attribute(f, lambda caching: run(case, world, caching, flattened=flattened)[0], exp, mentioned_not_selected=False,
-                     compare=lambda got, e: H.diff_kind(got, e, ordered=False, multiset=False))
+                     compare=lambda got, e: H.diff_kind(got, e, ordered=False, multiset=False), nvars=2)
     return r if r == "K05" else None
